@@ -546,3 +546,44 @@ package tbtc
 //@   property C35
 //@   opt noframe 1
 //@   ensures [reports-only-what-checkAllDone-found] err == nil ==> result0 != nil
+
+// ---------------------------------------------------------------------------
+// C37: event deduplication
+
+//@ func deduplicator.notifyDKGStarted
+//@   property C37
+//@   requires newDKGSeed != nil
+//@   binds ghost.cacheSeen = false
+//@   modifies ghost.cacheAdds, ghost.cacheLastAdd, ghost.cacheLastKey, ghost.cacheLastCache
+//@   ensures [proceeds-only-as-the-one-inserting-caller] result ==> ghost.cacheAdds == old(ghost.cacheAdds) + 1 && ghost.cacheLastAdd && ghost.cacheLastCache == d.dkgSeedCache && ghost.cacheLastKey == big2str(bigval(newDKGSeed))
+//@   ensures [duplicate-only-if-seen-or-the-atomic-insert-failed] !result ==> (ghost.cacheAdds == old(ghost.cacheAdds) && ghost.cacheSeen) || (ghost.cacheAdds == old(ghost.cacheAdds) + 1 && !ghost.cacheLastAdd && ghost.cacheLastCache == d.dkgSeedCache && ghost.cacheLastKey == big2str(bigval(newDKGSeed)))
+
+//@ func deduplicator.notifyDKGResultSubmitted
+//@   property C37
+//@   requires newDKGResultSeed != nil
+//@   binds ghost.cacheSeen = false
+//@   modifies ghost.cacheAdds, ghost.cacheLastAdd, ghost.cacheLastKey, ghost.cacheLastCache
+//@   ensures [proceeds-only-as-the-one-inserting-caller] result ==> ghost.cacheAdds == old(ghost.cacheAdds) + 1 && ghost.cacheLastAdd && ghost.cacheLastCache == d.dkgResultHashCache
+//@   ensures [duplicate-only-if-seen-or-the-atomic-insert-failed] !result ==> (ghost.cacheAdds == old(ghost.cacheAdds) && ghost.cacheSeen) || (ghost.cacheAdds == old(ghost.cacheAdds) + 1 && !ghost.cacheLastAdd && ghost.cacheLastCache == d.dkgResultHashCache)
+//@   ensures [key-is-the-separated-triple] ghost.cacheLastKey == big2str(bigval(newDKGResultSeed)) + ":" + hexenc(newDKGResultHash[0:32]) + ":" + itoa(wrap_i64(newDKGResultBlock))
+
+//@ func deduplicator.notifyWalletClosed
+//@   property C37
+//@   binds ghost.cacheSeen = false
+//@   modifies ghost.cacheAdds, ghost.cacheLastAdd, ghost.cacheLastKey, ghost.cacheLastCache
+//@   ensures [proceeds-only-as-the-one-inserting-caller] result ==> ghost.cacheAdds == old(ghost.cacheAdds) + 1 && ghost.cacheLastAdd && ghost.cacheLastCache == d.walletClosedCache && ghost.cacheLastKey == hexenc(WalletID[0:32])
+//@   ensures [duplicate-only-if-seen-or-the-atomic-insert-failed] !result ==> (ghost.cacheAdds == old(ghost.cacheAdds) && ghost.cacheSeen) || (ghost.cacheAdds == old(ghost.cacheAdds) + 1 && !ghost.cacheLastAdd && ghost.cacheLastCache == d.walletClosedCache && ghost.cacheLastKey == hexenc(WalletID[0:32]))
+
+// Key injectivity. The string facts are trusted (alphabets: Text(16) of a
+// non-negative integer is [0-9a-f]+, hex.EncodeToString is [0-9a-f]*, Itoa is
+// -?[0-9]+; none contains ':'); the lemma over them is checked by SMT.
+//@ spec func nosep(s string) bool
+//@ axiom text16-has-no-colon: forall v int :: @nosep(big2str(v))
+//@ axiom hex-has-no-colon: forall b []byte :: @nosep(hexenc(b))
+//@ axiom itoa-has-no-colon: forall n int :: @nosep(itoa(n))
+//@ axiom text16-injective: forall v, w int :: big2str(v) == big2str(w) ==> v == w
+//@ axiom hex-injective-on-32-bytes: forall a, b [32]byte :: hexenc(a[0:32]) == hexenc(b[0:32]) ==> a == b
+//@ axiom itoa-injective: forall n, m int :: itoa(n) == itoa(m) ==> n == m
+//@ axiom separated-concat-injective: forall a, b, c, a2, b2, c2 string :: (@nosep(a) && @nosep(b) && @nosep(c) && @nosep(a2) && @nosep(b2) && @nosep(c2) && a + ":" + b + ":" + c == a2 + ":" + b2 + ":" + c2) ==> (a == a2 && b == b2 && c == c2)
+//@ lemma dkg-result-key-injective: forall s, s2 int, h, h2 [32]byte, n, n2 int :: (@nosep(big2str(s)) && big2str(s) + ":" + hexenc(h[0:32]) + ":" + itoa(n) == big2str(s2) + ":" + hexenc(h2[0:32]) + ":" + itoa(n2)) ==> (s == s2 && h == h2 && n == n2)
+//@   property C37
